@@ -450,6 +450,16 @@ func (m *Machine) initPackage(pkg *ssa.Package) {
 			}
 		}
 	}
+	if pkg.Pkg.Path() == "net/http" {
+		// the sentinel *multipart.Form that marks "MultipartReader was called" must be a distinct non-nil pointer: left nil
+		// it equals every request's MultipartForm and form parsing returns at once without touching the body (C13_o)
+		if g, ok := pkg.Members["multipartByReader"].(*ssa.Global); ok {
+			if pt, ok := deref(g.Type()).Underlying().(*types.Pointer); ok {
+				cell := zero(pt.Elem())
+				*m.globals[g] = &cell
+			}
+		}
+	}
 	if skipInitPkgs[pkg.Pkg.Path()] {
 		return
 	}
